@@ -156,6 +156,8 @@ type dbState struct {
 	parsed  map[string]interface{}
 	commits int
 	failAt  int // the failAt-th commit from the start fails (0 = never)
+	// failStmt: the failure is delivered at the first write statement inside that transaction instead
+	failStmt, fired bool
 	killAt  int // execution stops right after the killAt-th commit (0 = never)
 	writes  []string
 	// storage-operation boundaries (one per statement execution and per commit) and the intruder
@@ -539,6 +541,16 @@ func (in *Interp) bindNamed(arg iface) *sqlm.Args {
 
 var errNoRowsKey = "database/sql.ErrNoRows"
 
+// sqlErrTxDone: the sentinel database/sql returns from Commit/Rollback on a finished transaction
+// (code compares with it: `errors.Is(tx.Rollback(), sql.ErrTxDone)` in deferred rollbacks).
+func (in *Interp) sqlErrTxDone() iface {
+	pkg := in.P.Pkgs["database/sql"]
+	if pkg == nil {
+		panic(unsupported{"database/sql not loaded"})
+	}
+	return (*in.globalAddr(pkg.Var("ErrTxDone"))).(iface)
+}
+
 func (in *Interp) sqlErrNoRows() iface {
 	pkg := in.P.Pkgs["database/sql"]
 	if pkg == nil {
@@ -741,11 +753,21 @@ func (P *Program) registerSQL() {
 		outer.(structure)[0] = &inner
 		return tuple{&outer, iface{}}
 	})
+	stmtFault := func(in *Interp, st *dbState) (value, bool) {
+		if st.failStmt && st.failAt > 0 && st.commits+1 == st.failAt {
+			st.failAt, st.fired = 0, true
+			return tuple{in.sqlResult(nil), in.mkError("injected storage failure at statement")}, true
+		}
+		return nil, false
+	}
 	P.reg("(*"+X+".Tx).NamedExecContext", func(fr *frame, args []value) value {
 		in := fr.in
 		tx := hTx(args[0])
 		tx.wrote = true
 		in.storageOp(fr, tx.st)
+		if r, ok := stmtFault(in, tx.st); ok {
+			return r
+		}
 		err, n := in.sqlExec(tx.st, tx.local, in.goStr(args[2], "sql text"), in.bindNamed(args[3].(iface)))
 		return tuple{in.sqlResult(n), err}
 	})
@@ -754,6 +776,9 @@ func (P *Program) registerSQL() {
 		tx := hTx(args[0])
 		tx.wrote = true
 		in.storageOp(fr, tx.st)
+		if r, ok := stmtFault(in, tx.st); ok {
+			return r
+		}
 		err, n := in.sqlExec(tx.st, tx.local, in.goStr(args[2], "sql text"), in.bindArgs(args[3].(sliceVal)))
 		return tuple{in.sqlResult(n), err}
 	}
@@ -763,7 +788,7 @@ func (P *Program) registerSQL() {
 		in := fr.in
 		tx := hTx(args[0])
 		if tx.done {
-			return in.mkError("sql: transaction has already been committed or rolled back")
+			return in.sqlErrTxDone()
 		}
 		tx.done = true
 		st := tx.st
@@ -777,6 +802,7 @@ func (P *Program) registerSQL() {
 		}
 		st.commits++
 		if st.failAt > 0 && st.commits == st.failAt {
+			st.fired = true
 			return in.mkError("injected storage failure at commit")
 		}
 		if tx.wrote {
@@ -790,7 +816,7 @@ func (P *Program) registerSQL() {
 	rollback := func(fr *frame, args []value) value {
 		tx := hTx(args[0])
 		if tx.done {
-			return fr.in.mkError("sql: transaction has already been committed or rolled back")
+			return fr.in.sqlErrTxDone()
 		}
 		tx.done = true
 		return iface{}
@@ -811,6 +837,7 @@ func (P *Program) registerSQL() {
 		if w {
 			st.commits++
 			if st.failAt > 0 && st.commits == st.failAt {
+				st.fired = true
 				return tuple{in.sqlResult(nil), in.mkError("injected storage failure at commit")}
 			}
 		}
@@ -881,6 +908,9 @@ func (P *Program) registerSQL() {
 			if h.tx != nil {
 				h.tx.wrote = true
 				in.storageOp(fr, h.tx.st)
+				if r, ok := stmtFault(in, h.tx.st); ok {
+					return r
+				}
 				err, n := in.sqlExec(h.tx.st, h.tx.local, h.query, binds)
 				return tuple{in.sqlResult(n), err}
 			}
@@ -1085,6 +1115,13 @@ func (P *Program) registerVHDB() {
 		st.failAt = st.commits + fr.in.mustInt(args[1], "fault position")
 		return nil
 	})
+	P.reg(VHDB+".FailStatement", func(fr *frame, args []value) value {
+		st := hDB(args[0])
+		st.failAt = st.commits + fr.in.mustInt(args[1], "fault position")
+		st.failStmt, st.fired = true, false
+		return nil
+	})
+	P.reg(VHDB+".FaultFired", func(fr *frame, args []value) value { return fr.in.boolv(hDB(args[0]).fired) })
 	P.reg(VHDB+".KillAfterCommit", func(fr *frame, args []value) value {
 		st := hDB(args[0])
 		st.killAt = st.commits + fr.in.mustInt(args[1], "kill position")
@@ -1092,7 +1129,7 @@ func (P *Program) registerVHDB() {
 	})
 	P.reg(VHDB+".Reopen", func(fr *frame, args []value) value {
 		st := hDB(args[0])
-		st.failAt, st.killAt = 0, 0
+		st.failAt, st.killAt, st.failStmt = 0, 0, false
 		return args[0]
 	})
 	P.reg(VHDB+".RunUntilKill", func(fr *frame, args []value) value {
